@@ -303,6 +303,26 @@ func (p *Program) allocBound(id string) int64 {
 
 func (p *Program) SpecPrelude() string { return p.specPrelude }
 
+// goTargetFuncs: functions started with a go statement anywhere in the repository.
+func (p *Program) goTargetFuncs() map[*ssa.Function]bool {
+	out := map[*ssa.Function]bool{}
+	for _, fn := range p.Funcs {
+		for _, b := range fn.Blocks {
+			for _, in := range b.Instrs {
+				if g, ok := in.(*ssa.Go); ok {
+					switch v := g.Call.Value.(type) {
+					case *ssa.Function:
+						out[v] = true
+					case *ssa.MakeClosure:
+						out[v.Fn.(*ssa.Function)] = true
+					}
+				}
+			}
+		}
+	}
+	return out
+}
+
 // globalWriters: repo functions (other than init) that store to a package-level variable or update a
 // map loaded directly from it. A global with an invariant must have none.
 func (p *Program) globalWriters(pkg, name string) []string {
